@@ -1,0 +1,17 @@
+//go:build verif
+
+package multicast
+
+import "github.com/gauss-project/aurorafs/pkg/boson"
+
+// VerifSetGroupMsgSub marks group gid as having (or not having) a local group-message subscriber,
+// which is what SubscribeGroupMessage does for a websocket client; the verification harness cannot
+// build an rpc.Notifier from outside.  It reports whether the group exists.
+func (s *Service) VerifSetGroupMsgSub(gid boson.Address, on bool) bool {
+	g := s.getGroup(gid)
+	if g == nil {
+		return false
+	}
+	g.groupMsgSub = on
+	return true
+}
